@@ -73,6 +73,17 @@ def make_mail(i, rnd):
     body_tokens = [f"bodytok{i}", "sharedbody", "triplebody" if i % 3 == 0 else "nontriple"]
     pad = "z" * (40 * (i % 7))
     body = " ".join(body_tokens) + "\r\n" + pad + "\r\nlast line\r\n"
+    if i % 5 == 3:
+        # a compound message: words that occur only in a sub-part's MIME header, in the header block of an embedded
+        # message, in the preamble -- all of it is the body of this message
+        bnd = f"=_bnd{i}"
+        hdrs.append("MIME-Version: 1.0")
+        hdrs.append(f'Content-Type: multipart/mixed; boundary="{bnd}"')
+        body = (f"preambletok{i} sharedpreamble\r\n--{bnd}\r\nContent-Type: text/plain; charset=us-ascii\r\n\r\n" + body
+                + f"--{bnd}\r\nContent-Type: application/octet-stream; name=\"attachtok{i}.bin\"\r\nContent-Disposition: attachment; filename=\"attachtok{i}.bin\"\r\n"
+                + f"Content-Description: desctok{i} shareddesc\r\n\r\npayloadtok{i}\r\n"
+                + f"--{bnd}\r\nContent-Type: message/rfc822\r\n\r\nFrom: embfromtok{i}@emb.example\r\nSubject: embsubjtok{i} sharedembsubj\r\n"
+                + f"Message-ID: <embmid{i}@emb.example>\r\n\r\nembbodytok{i} inner text\r\n--{bnd}--\r\nepiloguetok{i}\r\n")
     t["body"] = body.lower()
     raw = ("\r\n".join(hdrs) + "\r\n\r\n" + body).encode()
     t["text"] = raw.decode().lower()
@@ -108,9 +119,10 @@ def gen_key(rnd, n, uids, depth, nmsgs_tokens):
     if kind == "header":
         return ("header", rnd.choice(["X-Tag", "x-tag", "Subject", "X-Missing"]), rnd.choice([f"tagtok{i}", f"secondtag{i - i % 3}", "", "subjtok"]))
     if kind == "body":
-        return ("body", rnd.choice([f"bodytok{i}", "sharedbody", "triplebody", "TRIPLEBODY", f"subjtok{i}", "last line"]))
+        return ("body", rnd.choice([f"bodytok{i}", "sharedbody", "triplebody", "TRIPLEBODY", f"subjtok{i}", "last line", f"attachtok{i}", f"embsubjtok{i}", "sharedembsubj", "shareddesc",
+                                    f"embfromtok{i}", "sharedpreamble", f"payloadtok{i}", f"embbodytok{i}", f"epiloguetok{i}", "message/rfc822", "octet-stream"]))
     if kind == "text":
-        return ("text", rnd.choice([f"bodytok{i}", f"subjtok{i}", f"tagtok{i}", "sharedbody", "nosuchword"]))
+        return ("text", rnd.choice([f"bodytok{i}", f"subjtok{i}", f"tagtok{i}", "sharedbody", "nosuchword", f"embsubjtok{i}", "shareddesc", f"attachtok{i}"]))
     if kind == "idate":
         return (rnd.choice(["BEFORE", "ON", "SINCE"]), "idate")
     if kind == "sent":
